@@ -53,8 +53,10 @@ def run(oc, tier, seed, model_available, escalate):
         shutil.rmtree(d, ignore_errors=True)
         P = es.gen_params(rng, small=True, erasures=False)
         P.mbs = max(P.mbs, 20)
-        if it % 3:
+        if it % 2:
             P.algo = rng.choice([3, 4])
+        else:
+            P.algo = rng.choice([1, 2, 1, 3, 4])      # the pure-python codecs raise their own exception class (RSCodecError)
         if not P.well_formed():
             continue
         tree = es.gen_tree(rng, P, nfiles=rng.randint(1, 4), maxsize=300)
@@ -112,7 +114,7 @@ def run(oc, tier, seed, model_available, escalate):
             elif kind == "nine":
                 w = 9
             elif kind == "beyond":
-                w = rng.randint(14, 27)
+                w = rng.choice([10, 11, 12, 13, rng.randint(14, 27)])
                 lost.add(r)
             else:
                 w = 0
